@@ -124,6 +124,10 @@ fn kinds_sig(env: &mut Env, row: &[V], e: &E) -> String {
         match r.strip_prefix("ok ") { Some(c) => kind_of_cell(c).to_string(), None => r.replace(' ', "-") }
     }).collect();
     let mut s = node_sig(e, &ks);
+    // a column-free operator sub-tree (the planner folds those before execution)
+    fn has_col(e: &E) -> bool { matches!(e, E::Col(_)) || e.children().iter().any(|c| has_col(c)) }
+    fn has_const_op(e: &E) -> bool { (!matches!(e, E::Lit(_) | E::Col(_)) && !has_col(e)) || e.children().iter().any(|c| has_const_op(c)) }
+    if matches!(e.head().as_str(), "and" | "or") && e.children().iter().any(|c| has_const_op(c)) { s.push_str("[const-operand]"); }
     if let E::Like(x, _, _) = e {
         let r = env.model_eval(row, x);
         if let Some(c) = r.strip_prefix("ok T") { let b = unhex(c); if !b.is_ascii() { s.push_str("[nonascii-text]"); } else if b.contains(&b'%') { s.push_str("[percent-in-text]"); } }
